@@ -264,6 +264,15 @@ def abstract_statement(fv, s, st, reason):
         havoc_state(fv, st, assigned_names([s]))
 
 
+def havoc_after_partial(fv, st, expr):
+    """an expression that could be evaluated only in part may have called unknown code with any of the locals it mentions:
+    arbitrary heap, and every local it mentions that holds a container VALUE is arbitrary too (object references stay)"""
+    roots = {n.id for n in ast.walk(expr) if isinstance(n, ast.Name)}
+    names = NameSet(roots)
+    names.mutated_only = frozenset(roots)
+    havoc_state(fv, st, names)
+
+
 def fresh_bool(fv):
     return z3.Const('nd!%d' % next(fv.E.counter), z3.BoolSort())
 
